@@ -17,6 +17,9 @@ pub enum Site {
     ShippedRoot,
     RootHopOld,
     RootHopNew,
+    /// like RootHopOld / RootHopNew, but both roots list the SAME root keys and only the threshold differs
+    RootHopOldSame,
+    RootHopNewSame,
     Timestamp,
     Snapshot,
     Targets,
@@ -24,10 +27,12 @@ pub enum Site {
     DelegD2,
 }
 
-pub const SITES: [Site; 8] = [
+pub const SITES: [Site; 10] = [
     Site::ShippedRoot,
     Site::RootHopOld,
     Site::RootHopNew,
+    Site::RootHopOldSame,
+    Site::RootHopNewSame,
     Site::Timestamp,
     Site::Snapshot,
     Site::Targets,
@@ -41,6 +46,8 @@ impl Site {
             Site::ShippedRoot => "shipped-root",
             Site::RootHopOld => "root-hop-old-keys",
             Site::RootHopNew => "root-hop-new-keys",
+            Site::RootHopOldSame => "root-hop-old-keys-same-key-set",
+            Site::RootHopNewSame => "root-hop-new-keys-same-key-set",
             Site::Timestamp => "timestamp",
             Site::Snapshot => "snapshot",
             Site::Targets => "targets",
@@ -327,6 +334,32 @@ pub fn build_base(site: Site, n: usize, t: u64, mix: AlgMix, consistent: bool) -
                 deleg_name: None,
             }
         }
+        Site::RootHopOldSame | Site::RootHopNewSame => {
+            // both roots list the same root keys; only the threshold differs between them
+            let (t1, t2) = if site == Site::RootHopOldSame { (t, 1) } else { (1, t) };
+            let mut rk1 = rk.clone();
+            rk1.root = RoleKeys { keys: ks.clone(), threshold: t1 };
+            let mut rs1 = root_signed(1, consistent, FAR, &rk1);
+            add_m(&mut rs1, "root");
+            let root1 = render(&sign_with(&rs1, &ks[..(t1 as usize).min(n)]), Style::Compact);
+            files.insert(meta_path(consistent, 1, "root"), root1.clone());
+            let mut rk2 = rk.clone();
+            rk2.root = RoleKeys { keys: ks.clone(), threshold: t2 };
+            let mut rs2 = root_signed(2, consistent, FAR, &rk2);
+            add_m(&mut rs2, "root");
+            finish(&mut files, &rk, None, targets_signed(1, FAR, tgt, None), vec![]);
+            Base {
+                files,
+                shipped_root: root1,
+                other: bump_version(&rs2),
+                signed: rs2,
+                fixed_sigs: vec![],
+                path: Some(meta_path(consistent, 2, "root")),
+                ks,
+                rkey: K_OTHER_TS,
+                deleg_name: None,
+            }
+        }
         Site::DelegD1 | Site::DelegD2 => {
             let rs = root_signed(1, consistent, FAR, &rk);
             let root_bytes = render(&sign_with(&rs, &[K_OTHER_ROOT]), Style::Compact);
@@ -574,7 +607,7 @@ fn enum_lists(n: usize, len: usize, out: &mut Vec<Vec<Tok>>) {
 
 fn site_ok(site: Site, n: usize, t: u64) -> bool {
     // the shipped root of the root-hop-old site must itself be valid
-    !(site == Site::RootHopOld && t as usize > n)
+    !((site == Site::RootHopOld || site == Site::RootHopOldSame) && t as usize > n)
 }
 
 fn gen_cases(cfg: &Cfg) -> Vec<Case> {
@@ -670,7 +703,7 @@ fn run_load_case(w: &mut Worker, c: &Case) -> CaseOut {
     out.evals = 1;
     let (accepted, note) = match &res {
         Ok(repo) => match c.site {
-            Site::RootHopOld | Site::RootHopNew => {
+            Site::RootHopOld | Site::RootHopNew | Site::RootHopOldSame | Site::RootHopNewSame => {
                 let v = repo.root().signed.version.get();
                 (v == 2, format!("load ok, trusted root version {v}"))
             }
